@@ -39,7 +39,7 @@ var c18CfgKinds = []string{"discrete-many-headers", "allow-all", "discrete", "di
 
 var c18Shapes = []string{"actual-get-allowed", "actual-get-disallowed", "actual-options", "non-cors-get", "preflight-ok", "preflight-bad-origin", "preflight-acrpn", "preflight-bad-method", "preflight-bad-headers"}
 
-var c18Fields = []string{"origin-length", "origin-labels", "origin-punycode-labels", "origin-values", "acrm-length", "acrh-line-length", "acrh-junk-length", "acrh-elements", "acrh-empty-elements", "acrh-lines", "acrh-ows", "acrpn-values", "acrpn-length", "other-header-values",
+var c18Fields = []string{"origin-length", "origin-labels", "origin-punycode-labels", "origin-values", "acrm-length", "acrh-line-length", "acrh-junk-length", "acrh-elements", "acrh-empty-elements", "acrh-lines", "acrh-list-lines", "acrh-ows-lines", "acrh-ows", "acrpn-values", "acrpn-length", "other-header-values",
 	"acrm-values", "other-header-count", "target-length", "method-length", "host-length", "acrh-distinct-elements"}
 
 type C18Case struct {
@@ -84,7 +84,7 @@ var c18Counts = []int{1, 100, 10_000, 100_000}
 
 func c18Scales(field string) []int {
 	switch field {
-	case "origin-values", "acrh-elements", "acrh-empty-elements", "acrh-lines", "acrpn-values", "other-header-values", "acrm-values":
+	case "origin-values", "acrh-elements", "acrh-empty-elements", "acrh-lines", "acrh-list-lines", "acrh-ows-lines", "acrpn-values", "other-header-values", "acrm-values":
 		return c18Counts
 	case "other-header-count":
 		return []int{1, 100, 1000, 20_000}
@@ -181,6 +181,20 @@ func c18Request(shape, field, fl string, n int) *http.Request {
 			vs[i] = flavour("x-foo", fl)
 		}
 		h[hACRH] = vs
+	case "acrh-list-lines":
+		// many field lines, each of them a short list (so that the padded flavour puts OWS next to a comma in EVERY line)
+		vs := make([]string, n)
+		for i := range vs {
+			vs[i] = flavour("x-bar,x-foo", fl)
+		}
+		h[hACRH] = vs
+	case "acrh-ows-lines":
+		// many field lines, each with one OWS byte on either side of its only name
+		vs := make([]string, n)
+		for i := range vs {
+			vs[i] = " " + flavour("x-foo", fl) + "\t"
+		}
+		h[hACRH] = vs
 	case "acrpn-values":
 		// many Access-Control-Request-Private-Network field lines (junk, true or false depending on the flavour)
 		v := map[string]string{"lower": "yes", "mixed": "True", "upper": "FALSE", "padded": "true"}[fl]
@@ -267,7 +281,7 @@ func c18Gen(t *rapid.T) C18Case {
 		// the cells where the request-header list is actually read: a third of the quick budget goes there
 		return C18Case{CfgKind: pick(t, "hotcfg", []string{"discrete-many-headers", "discrete-many-headers", "discrete", "discrete-credentialed", "star-headers-credentialed", "allow-all"}), Debug: chance(t, "hotdebug", 35),
 			Shape:  pick(t, "hotshape", []string{"preflight-ok", "preflight-ok", "preflight-bad-headers", "preflight-acrpn"}),
-			Field:  pick(t, "hotfield", []string{"acrh-distinct-elements", "acrh-distinct-elements", "acrh-elements", "acrh-lines", "acrh-line-length", "acrh-empty-elements", "acrh-ows", "acrh-junk-length"}),
+			Field:  pick(t, "hotfield", []string{"acrh-distinct-elements", "acrh-distinct-elements", "acrh-elements", "acrh-lines", "acrh-list-lines", "acrh-ows-lines", "acrh-line-length", "acrh-empty-elements", "acrh-ows", "acrh-junk-length"}),
 			Flavor: pick(t, "hotflavor", c18Flavors), Via: pick(t, "hotvia", []int{0, 0, 4, 4, 1, 2, 3, 5})}
 	}
 	return C18Case{CfgKind: pick(t, "cfg", c18CfgKinds), Debug: chance(t, "debug", 50), Shape: pick(t, "shape", c18Shapes), Field: pick(t, "field", c18Fields), Flavor: pick(t, "flavor", c18Flavors)}
@@ -318,7 +332,7 @@ func c18Check(c C18Case, rec *Recorder) *Disc {
 func TestC18(t *testing.T) {
 	Prop[C18Case]{ID: "C18", Gen: c18Gen, Check: c18Check,
 		Rule: "generator: configuration kind in {40 discrete request-header names, allow-all, discrete, discrete+credentialed+PNA, * headers anonymous with/without Authorization, * headers credentialed, no headers configured, no-cors-only PNA} x debug x request shape in {actual allowed/disallowed, actual OPTIONS, non-CORS, preflight succeeding / failing at origin, ACRPN, method, headers} " +
-			"x scaled field in {Origin length, Origin label count, Origin Punycode-label count, Origin value count, ACRM length, ACRH line length (valid names), ACRH junk length, ACRH element count, count of DISTINCT allowed names (to 40) in sorted order, ACRH empty-element count, ACRH line count, OWS run, ACRPN value count, ACRPN length, value count of an unrelated header, ACRM value count, number of distinct unrelated headers (to 20 000), request-target length, method length, Host length} x content flavour in {lower case, Mixed-Case, UPPER CASE, OWS-padded} x 4 scales (1 B..1 MiB or 1..100 000 elements). " +
+			"x scaled field in {Origin length, Origin label count, Origin Punycode-label count, Origin value count, ACRM length, ACRH line length (valid names), ACRH junk length, ACRH element count, count of DISTINCT allowed names (to 40) in sorted order, ACRH empty-element count, ACRH line count (one name per line; a two-name list per line; one OWS-padded name per line), OWS run, ACRPN value count, ACRPN length, value count of an unrelated header, ACRM value count, number of distinct unrelated headers (to 20 000), request-target length, method length, Host length} x content flavour in {lower case, Mixed-Case, UPPER CASE, OWS-padded} x 4 scales (1 B..1 MiB or 1..100 000 elements). " +
 			"In the quick tier's hot cells the middleware reaches its state through one of six histories documented as equivalent (e.g. Reconfigure(Config())). Oracle: testing.AllocsPerRun (10 runs, GOMAXPROCS 1, reused request, reused and cleared header map, no-op handler, race detector off) <= 16 at every scale (the unchanged library needs 0-2), not larger at the largest scale than at the one before it, and at most 3 larger than at the smallest (a bounded step is tolerated, growth is not). " +
 			"evaluations = measured cells; non-trivial = cell with scale >= 10 KiB / 10 000 elements; distinct by (config kind, debug, shape, field, flavour, scale).",
 		Assumptions: []string{"only the allocation COUNT is judged, as the property says; a change that allocates O(n) bytes in O(1) allocations is not flagged",
